@@ -31,4 +31,73 @@ static int op_enum(int argc, char **argv, FILE *o) {
     for (i = lo; i < hi; i++) { regs_of(i, in); dec_line(s, sizeof s, in); h = fnv_str(h, s); }
     fprintf(o, "%016llx", (unsigned long long) h); return 0;
 }
-const hx_op ops_c10[] = { {"rt.decode", op_decode}, {"enum.rt.decode", op_enum}, {NULL, NULL} };
+
+/* Long-length cross-backend ops. The AEGIS length block holds the two 64-bit BIT lengths; their upper halves are non-zero only from 2^29 bytes on,
+   which no op line can carry as hex. These ops build the long zero-filled operand themselves (calloc: untouched zero pages, nothing is written for the AD),
+   so the Python side can run the same line under two CPU masks (AES-NI backend / software-AES backend) and compare the outputs.
+     aegis.longad  <128l|256> <adlen> <key> <nonce> <msg>            -> "<rc> <c> <mac>"        (encrypt_detached, AD = adlen zero bytes)
+     aegis.longad  <128l|256> <adlen> <key> <nonce> <msg> <c> <mac>  -> "<rc> <m>"              (decrypt_detached of a ciphertext sealed elsewhere; m pre-filled 0x5c)
+     aegis.longmsg <128l|256> <mlen>  <key> <nonce> <ad>             -> "<rc> <fnv64(c)> <mac>"  (message = mlen zero bytes, encrypted in place)
+     aegis.longmsg <128l|256> <mlen>  <key> <nonce> <ad> <mac>       -> "<rc> <fnv64(c)> <mac'> <rc of decrypt_detached(c, SUPPLIED mac) in place> <1 if all-zero again>"
+                                                                        (the supplied tag is the one another backend computed for the same line) */
+typedef struct { const char *name; size_t kb, nb;
+                 int (*encd)(unsigned char *, unsigned char *, unsigned long long *, const unsigned char *, unsigned long long, const unsigned char *, unsigned long long,
+                             const unsigned char *, const unsigned char *, const unsigned char *);
+                 int (*decd)(unsigned char *, unsigned char *, const unsigned char *, unsigned long long, const unsigned char *, const unsigned char *, unsigned long long,
+                             const unsigned char *, const unsigned char *); } aegis_t;
+static const aegis_t aegis_variants[] = {
+    {"128l", 16, 16, crypto_aead_aegis128l_encrypt_detached, crypto_aead_aegis128l_decrypt_detached},
+    {"256", 32, 32, crypto_aead_aegis256_encrypt_detached, crypto_aead_aegis256_decrypt_detached},
+    {NULL, 0, 0, NULL, NULL} };
+static const aegis_t *aegis_find(const char *s) { const aegis_t *a; for (a = aegis_variants; a->name; a++) if (strcmp(a->name, s) == 0) return a; return NULL; }
+#define LONG_MAX_BYTES (1ULL << 33)
+
+static int op_longad(int argc, char **argv, FILE *o) {
+    const aegis_t *a; uint64_t adlen; buf_t k, n, m, c, mac; unsigned char *ad, *out, tag[32]; unsigned long long maclen = 0; int rc, dec = argc == 7;
+    if ((argc != 5 && argc != 7) || (a = aegis_find(argv[0])) == NULL || hx_u64(argv[1], &adlen) || adlen > LONG_MAX_BYTES) return -1;
+    if (hx_hex(argv[2], &k)) return -1;
+    if (hx_hex(argv[3], &n)) { hx_free(&k); return -1; }
+    if (hx_hex(argv[4], &m)) { hx_free(&k); hx_free(&n); return -1; }
+    if (k.n != a->kb || n.n != a->nb) { hx_free(&k); hx_free(&n); hx_free(&m); return -1; }
+    ad = (unsigned char *) calloc(adlen ? adlen : 1, 1);
+    if (ad == NULL) { fputs("no-memory", o); hx_free(&k); hx_free(&n); hx_free(&m); return 0; }
+    if (!dec) {
+        out = (unsigned char *) hx_alloc(m.n);
+        rc = a->encd(out, tag, &maclen, m.p, m.n, adlen ? ad : NULL, adlen, NULL, n.p, k.p);
+        fprintf(o, "%d ", rc); hx_put_hex(o, out, m.n); fputc(' ', o); hx_put_hex(o, tag, (size_t) (maclen <= 32 ? maclen : 32));
+        hx_release(out);
+    } else {
+        if (hx_hex(argv[5], &c)) { free(ad); hx_free(&k); hx_free(&n); hx_free(&m); return -1; }
+        if (hx_hex(argv[6], &mac)) { free(ad); hx_free(&k); hx_free(&n); hx_free(&m); hx_free(&c); return -1; }
+        if (mac.n != 32) { free(ad); hx_free(&k); hx_free(&n); hx_free(&m); hx_free(&c); hx_free(&mac); return -1; }
+        out = (unsigned char *) hx_alloc(c.n); memset(out, 0x5c, c.n);
+        rc = a->decd(out, NULL, c.p, c.n, mac.p, adlen ? ad : NULL, adlen, n.p, k.p);
+        fprintf(o, "%d ", rc); hx_put_hex(o, out, c.n);
+        hx_release(out); hx_free(&c); hx_free(&mac);
+    }
+    free(ad); hx_free(&k); hx_free(&n); hx_free(&m); return 0;
+}
+static int op_longmsg(int argc, char **argv, FILE *o) {
+    const aegis_t *a; uint64_t mlen, i; buf_t k, n, ad, mac; unsigned char *buf, tag[32]; unsigned long long maclen = 0; int rc, rc2, zero = 1;
+    if ((argc != 5 && argc != 6) || (a = aegis_find(argv[0])) == NULL || hx_u64(argv[1], &mlen) || mlen > LONG_MAX_BYTES) return -1;
+    if (hx_hex(argv[2], &k)) return -1;
+    if (hx_hex(argv[3], &n)) { hx_free(&k); return -1; }
+    if (hx_hex(argv[4], &ad)) { hx_free(&k); hx_free(&n); return -1; }
+    if (k.n != a->kb || n.n != a->nb) { hx_free(&k); hx_free(&n); hx_free(&ad); return -1; }
+    buf = (unsigned char *) calloc(mlen ? mlen : 1, 1);
+    if (buf == NULL) { fputs("no-memory", o); hx_free(&k); hx_free(&n); hx_free(&ad); return 0; }
+    rc = a->encd(buf, tag, &maclen, buf, mlen, ad.n ? ad.p : NULL, ad.n, NULL, n.p, k.p);
+    fprintf(o, "%d %016llx ", rc, (unsigned long long) fnv_bytes(FNV_INIT, buf, (size_t) mlen)); hx_put_hex(o, tag, (size_t) (maclen <= 32 ? maclen : 32));
+    if (argc == 6) {
+        if (hx_hex(argv[5], &mac)) { fputs(" bad-mac", o); }
+        else if (mac.n != 32) { fputs(" bad-mac", o); hx_free(&mac); }
+        else {
+            rc2 = a->decd(buf, NULL, buf, mlen, mac.p, ad.n ? ad.p : NULL, ad.n, n.p, k.p);
+            for (i = 0; i < mlen; i++) if (buf[i]) { zero = 0; break; }
+            fprintf(o, " %d %d", rc2, zero);
+            hx_free(&mac);
+        }
+    }
+    free(buf); hx_free(&k); hx_free(&n); hx_free(&ad); return 0;
+}
+const hx_op ops_c10[] = { {"rt.decode", op_decode}, {"enum.rt.decode", op_enum}, {"aegis.longad", op_longad}, {"aegis.longmsg", op_longmsg}, {NULL, NULL} };
